@@ -47,7 +47,7 @@ class C15(core.Check):
                    'absolute scratch-directory paths printed by the listing are normalised before comparison')
     chunk = 2500
     crosscheck_every = {'quick': 200, 'thorough': 200}
-    required_buckets = {b: 3 for b in ['prog:overlapping-vocabulary', 'prog:command-line-symbol-given-twice', 'prog:tilde-directory', 'var:hashseed', 'var:env', 'var:cwd', 'var:include-order', 'var:include-duplicate',
+    required_buckets = {b: 3 for b in ['prog:overlapping-vocabulary', 'prog:command-line-symbol-given-twice', 'var:output-file-already-there', 'prog:tilde-directory', 'var:hashseed', 'var:env', 'var:cwd', 'var:include-order', 'var:include-duplicate',
                                        'var:include-symlink', 'prog:generated-isa', 'prog:multi-file', 'prog:example',
                                        'include-dirs>=3', 'ambiguous-include-name']}
 
@@ -78,7 +78,7 @@ class C15(core.Check):
                                                 'symlinks': {'alias_dir': inc[0].split('/')[0] if '/' not in inc[0] else inc[0]}}))
         return out
 
-    def build_runs(self, files, main, isa_name, dirs, tags, heavy=False, extra_argv=()):
+    def build_runs(self, files, main, isa_name, dirs, tags, heavy=False, extra_argv=(), stale_image=None):
         runs, labels = [], []
         # decoys: files carrying the names of the included files, with other contents, in the directories that serve as
         # working directory in the cwd variation (they are on no search path, so they must never be picked up)
@@ -89,7 +89,16 @@ class C15(core.Check):
             for d_ in ('elsewhere', 'elsewhere/deeper'):
                 for nm in {rel, os.path.basename(rel)}:
                     files.setdefault(f'{d_}/{nm}', '.byte $DE, $C0\ndecoy_label_in_cwd:\n.byte $1\n')
-        for tag, ov in self.variations(None, files, dirs, heavy=heavy):
+        var_list = self.variations(None, files, dirs, heavy=heavy)
+        if stale_image is not None:
+            # the output file is already there - holding the very image about to be written plus a tail, exactly that image,
+            # something longer, or nothing: what is there afterwards does not depend on it
+            import base64
+            for nm_, old_ in (('same-image-plus-tail', stale_image + b'\x01\x02\x03\x04'), ('same-image', stale_image),
+                              ('longer-junk', b'Z' * (len(stale_image) + 40)), ('empty-file', b''), ('first-byte-only', stale_image[:1])):
+                var_list.append(('var:output-file-already-there', {'hashseed': '0', 'inc': [], 'files_b64': {'out.bin': base64.b64encode(old_).decode()},
+                                                                  'stale': nm_}))
+        for tag, ov in var_list:
             for f in FORMATS:
                 absolute = ov.get('absolute')
                 pre = '{SCRATCH}/' if absolute else ''
@@ -103,6 +112,8 @@ class C15(core.Check):
                     spec['cwd'] = ov['cwd']
                 if 'symlinks' in ov:
                     spec['symlinks'] = ov['symlinks']
+                if 'files_b64' in ov:
+                    spec['files_b64'] = ov['files_b64']
                 runs.append(spec)
                 labels.append([tag, f, ov['hashseed']])
         return {'runs': runs, 'meta': {'labels': labels}, 'tags': sorted(tags)}
@@ -180,6 +191,11 @@ class C15(core.Check):
             yield self.build_runs({fn: text, 'p.asm': src_d}, 'p.asm', fn, ['.'],
                                   {'prog:command-line-symbols', 'prog:command-line-symbol-given-twice' if dup else 'prog:command-line-symbols-distinct'},
                                   extra_argv=extra)
+        for k, (src_s, img_s) in enumerate([('.byte 1, 2, 3\n', '010203'), ('nop\nldi 5\n.2byte $1234\n', 'eaa9051234'), ('.org 2\n.byte 7\n', '000007')]):
+            isa = gen_prog.layout_isa(16)
+            fn, text = isamod.render_isa(isa, 'json')
+            yield self.build_runs({fn: text, 'p.asm': src_s}, 'p.asm', fn, ['.'], {'prog:output-file-already-there'},
+                                  stale_image=bytes.fromhex(img_s))
         # a search directory whose name begins with "~" is that directory, whatever HOME says
         for k, incdir in enumerate(['~/lib', '~lib', '~']):
             isa = gen_prog.layout_isa(16)
@@ -201,7 +217,7 @@ class C15(core.Check):
                     continue
                 fmt = 'yaml' if gen_isa.needs_yaml(obj) else 'json'
                 fn, text = isamod.render_isa(obj, fmt)
-                files = {fn: text, 'p.asm': ''.join(l['text'] + '\n' for l in lines)}
+                files = {fn: text, 'p.asm': ''.join(l['text'] + '\n' for l in lines if l.get('text') is not None)}
                 yield self.build_runs(files, 'p.asm', fn, ['.'], {'prog:generated-isa'})
             else:
                 c = None
@@ -299,6 +315,11 @@ class C15(core.Check):
                                         buckets=[tag], nt=nt))
                 continue
             nb, no = norm(b), norm(o)
+            for rel_, b64_ in (r.get('files_b64') or {}).items():
+                # (the executor reports a file that ends up identical to what was pre-placed as "unchanged", without its content)
+                if rel_ not in no and rel_ in (o.get('unchanged') or []):
+                    import base64
+                    no[rel_] = base64.b64decode(b64_)
             if nb != no:
                 which = sorted(k for k in set(nb) | set(no) if nb.get(k) != no.get(k))
                 vs.append(core.violated(f'output-differs/{tag}/{f}', {'files': which, 'argv': r['argv'], 'env': r.get('env'),
